@@ -10,6 +10,8 @@ CONSTANTS
  DevMolsPerFile = FALSE
  DevDirKeep = FALSE
  DevElseKeep = FALSE
+ DevRootFirst = FALSE
+ DevEdgesNewOnly = FALSE
 CHECK_DEADLOCK FALSE
 INVARIANT SameX
 INVARIANT NoStruct
